@@ -1,0 +1,380 @@
+/*
+ * Verification facade (cargo feature `verif`): neutral text representation of MQTT packets.
+ *
+ * One packet = one line of whitespace-separated tokens, positional fields:
+ *   `-`            None
+ *   decimal        integers, booleans as 0/1, enums as their wire value
+ *   x<hex>         strings (UTF-8 bytes) and binary data; `x` alone is the empty string
+ *   [a,b,...]      lists; `[]` empty; user property = x<name>:x<value>;
+ *                  subscription = x<filter>:qos:nl:rap:rh
+ * Field orders are documented on each `*_to_tokens` function.
+ */
+
+use crate::mqtt::*;
+
+pub type TextResult<T> = Result<T, String>;
+
+pub fn hex(bytes: &[u8]) -> String {
+    let mut s = String::with_capacity(1 + bytes.len() * 2);
+    s.push('x');
+    for b in bytes {
+        s.push_str(&format!("{:02x}", b));
+    }
+    s
+}
+
+pub fn unhex(token: &str) -> TextResult<Vec<u8>> {
+    let t = token.strip_prefix('x').ok_or_else(|| format!("bad hex token {}", token))?;
+    if t.len() % 2 != 0 {
+        return Err(format!("odd hex token {}", token));
+    }
+    let mut out = Vec::with_capacity(t.len() / 2);
+    let b = t.as_bytes();
+    for i in (0..b.len()).step_by(2) {
+        let s = std::str::from_utf8(&b[i..i + 2]).map_err(|e| e.to_string())?;
+        out.push(u8::from_str_radix(s, 16).map_err(|e| e.to_string())?);
+    }
+    Ok(out)
+}
+
+fn unhex_string(token: &str) -> TextResult<String> {
+    String::from_utf8(unhex(token)?).map_err(|_| "invalid utf8 in string token".to_string())
+}
+
+fn opt<T>(token: &str, f: impl Fn(&str) -> TextResult<T>) -> TextResult<Option<T>> {
+    if token == "-" { Ok(None) } else { Ok(Some(f(token)?)) }
+}
+
+fn num<T: std::str::FromStr>(token: &str) -> TextResult<T> {
+    token.parse::<T>().map_err(|_| format!("bad number {}", token))
+}
+
+fn boolean(token: &str) -> TextResult<bool> {
+    match token { "0" => Ok(false), "1" => Ok(true), _ => Err(format!("bad bool {}", token)) }
+}
+
+fn list_items(token: &str) -> TextResult<Vec<&str>> {
+    let inner = token.strip_prefix('[').and_then(|t| t.strip_suffix(']')).ok_or_else(|| format!("bad list {}", token))?;
+    if inner.is_empty() { Ok(Vec::new()) } else { Ok(inner.split(',').collect()) }
+}
+
+fn user_properties(token: &str) -> TextResult<Vec<UserProperty>> {
+    let mut v = Vec::new();
+    for item in list_items(token)? {
+        let (n, val) = item.split_once(':').ok_or_else(|| "bad user property".to_string())?;
+        v.push(UserProperty { name: unhex_string(n)?, value: unhex_string(val)? });
+    }
+    Ok(v)
+}
+
+fn enum8<T: TryFrom<u8>>(token: &str) -> TextResult<T> {
+    let v: u8 = num(token)?;
+    T::try_from(v).map_err(|_| format!("bad enum value {}", token))
+}
+
+fn o<T: ToString>(v: &Option<T>) -> String {
+    match v { Some(x) => x.to_string(), None => "-".to_string() }
+}
+
+fn ob(v: &Option<bool>) -> String {
+    match v { Some(true) => "1".to_string(), Some(false) => "0".to_string(), None => "-".to_string() }
+}
+
+fn b(v: bool) -> String { if v { "1".to_string() } else { "0".to_string() } }
+
+fn os(v: &Option<String>) -> String {
+    match v { Some(x) => hex(x.as_bytes()), None => "-".to_string() }
+}
+
+fn obytes(v: &Option<Vec<u8>>) -> String {
+    match v { Some(x) => hex(x), None => "-".to_string() }
+}
+
+fn oup(v: &Option<Vec<UserProperty>>) -> String {
+    match v {
+        None => "-".to_string(),
+        Some(props) => {
+            let items: Vec<String> = props.iter().map(|p| format!("{}:{}", hex(p.name.as_bytes()), hex(p.value.as_bytes()))).collect();
+            format!("[{}]", items.join(","))
+        }
+    }
+}
+
+struct Toks<'a> { toks: Vec<&'a str>, pos: usize }
+
+impl<'a> Toks<'a> {
+    fn next(&mut self) -> TextResult<&'a str> {
+        let t = self.toks.get(self.pos).ok_or_else(|| "missing token".to_string())?;
+        self.pos += 1;
+        Ok(t)
+    }
+}
+
+/* PUBLISH pid topic qos dup retain payload pfi mei alias resptopic corr subids ctype up */
+fn publish_to_tokens(p: &PublishPacket) -> String {
+    let subids = match &p.subscription_identifiers {
+        None => "-".to_string(),
+        Some(ids) => format!("[{}]", ids.iter().map(|i| i.to_string()).collect::<Vec<String>>().join(","))
+    };
+    format!("{} {} {} {} {} {} {} {} {} {} {} {} {} {}",
+        p.packet_id, hex(p.topic.as_bytes()), p.qos as u8, b(p.duplicate), b(p.retain), obytes(&p.payload),
+        o(&p.payload_format.map(|v| v as u8)), o(&p.message_expiry_interval_seconds), o(&p.topic_alias),
+        os(&p.response_topic), obytes(&p.correlation_data), subids, os(&p.content_type), oup(&p.user_properties))
+}
+
+fn publish_from_tokens(t: &mut Toks) -> TextResult<PublishPacket> {
+    Ok(PublishPacket {
+        packet_id: num(t.next()?)?,
+        topic: unhex_string(t.next()?)?,
+        qos: enum8(t.next()?)?,
+        duplicate: boolean(t.next()?)?,
+        retain: boolean(t.next()?)?,
+        payload: opt(t.next()?, unhex)?,
+        payload_format: opt(t.next()?, enum8::<PayloadFormatIndicator>)?,
+        message_expiry_interval_seconds: opt(t.next()?, num::<u32>)?,
+        topic_alias: opt(t.next()?, num::<u16>)?,
+        response_topic: opt(t.next()?, unhex_string)?,
+        correlation_data: opt(t.next()?, unhex)?,
+        subscription_identifiers: opt(t.next()?, |tok| { let mut v = Vec::new(); for i in list_items(tok)? { v.push(num::<u32>(i)?); } Ok(v) })?,
+        content_type: opt(t.next()?, unhex_string)?,
+        user_properties: opt(t.next()?, user_properties)?,
+    })
+}
+
+macro_rules! ack_to_tokens {
+    ($p: expr) => {
+        format!("{} {} {} {}", $p.packet_id, $p.reason_code as u8, os(&$p.reason_string), oup(&$p.user_properties))
+    };
+}
+
+macro_rules! ack_from_tokens {
+    ($t: expr, $packet_type: ident) => {
+        $packet_type {
+            packet_id: num($t.next()?)?,
+            reason_code: enum8($t.next()?)?,
+            reason_string: opt($t.next()?, unhex_string)?,
+            user_properties: opt($t.next()?, user_properties)?,
+        }
+    };
+}
+
+/// Renders a packet as one line of text.
+///
+/// CONNECT keepalive clean clientid username password sei rri rpi recvmax tam maxpkt authmethod authdata willdelay up (NOWILL | WILL <publish fields>)
+/// CONNACK sp rc sei recvmax maxqos retainavail maxpkt assignedid tam reason up wildcard subidavail shared serverkeepalive respinfo serverref authmethod authdata
+/// PUBLISH pid topic qos dup retain payload pfi mei alias resptopic corr subids ctype up
+/// PUBACK|PUBREC|PUBREL|PUBCOMP pid rc reason up
+/// SUBSCRIBE pid [filter:qos:nl:rap:rh,...] subid up
+/// SUBACK pid reason up [codes]
+/// UNSUBSCRIBE pid [filters] up
+/// UNSUBACK pid reason up [codes]
+/// PINGREQ / PINGRESP
+/// DISCONNECT rc sei reason up serverref
+/// AUTH rc method data reason up
+pub(crate) fn packet_to_text(packet: &MqttPacket) -> String {
+    match packet {
+        MqttPacket::Connect(p) => {
+            let will = match &p.will { None => "NOWILL".to_string(), Some(w) => format!("WILL {}", publish_to_tokens(w)) };
+            format!("CONNECT {} {} {} {} {} {} {} {} {} {} {} {} {} {} {} {}",
+                p.keep_alive_interval_seconds, b(p.clean_start), os(&p.client_id), os(&p.username), obytes(&p.password),
+                o(&p.session_expiry_interval_seconds), ob(&p.request_response_information), ob(&p.request_problem_information),
+                o(&p.receive_maximum), o(&p.topic_alias_maximum), o(&p.maximum_packet_size_bytes), os(&p.authentication_method),
+                obytes(&p.authentication_data), o(&p.will_delay_interval_seconds), oup(&p.user_properties), will)
+        }
+        MqttPacket::Connack(p) => {
+            format!("CONNACK {} {} {} {} {} {} {} {} {} {} {} {} {} {} {} {} {} {} {}",
+                b(p.session_present), p.reason_code as u8, o(&p.session_expiry_interval), o(&p.receive_maximum),
+                o(&p.maximum_qos.map(|q| q as u8)), ob(&p.retain_available), o(&p.maximum_packet_size), os(&p.assigned_client_identifier),
+                o(&p.topic_alias_maximum), os(&p.reason_string), oup(&p.user_properties), ob(&p.wildcard_subscriptions_available),
+                ob(&p.subscription_identifiers_available), ob(&p.shared_subscriptions_available), o(&p.server_keep_alive),
+                os(&p.response_information), os(&p.server_reference), os(&p.authentication_method), obytes(&p.authentication_data))
+        }
+        MqttPacket::Publish(p) => { format!("PUBLISH {}", publish_to_tokens(p)) }
+        MqttPacket::Puback(p) => { format!("PUBACK {}", ack_to_tokens!(p)) }
+        MqttPacket::Pubrec(p) => { format!("PUBREC {}", ack_to_tokens!(p)) }
+        MqttPacket::Pubrel(p) => { format!("PUBREL {}", ack_to_tokens!(p)) }
+        MqttPacket::Pubcomp(p) => { format!("PUBCOMP {}", ack_to_tokens!(p)) }
+        MqttPacket::Subscribe(p) => {
+            let subs: Vec<String> = p.subscriptions.iter().map(|s| format!("{}:{}:{}:{}:{}", hex(s.topic_filter.as_bytes()), s.qos as u8, b(s.no_local), b(s.retain_as_published), s.retain_handling_type as u8)).collect();
+            format!("SUBSCRIBE {} [{}] {} {}", p.packet_id, subs.join(","), o(&p.subscription_identifier), oup(&p.user_properties))
+        }
+        MqttPacket::Suback(p) => {
+            let codes: Vec<String> = p.reason_codes.iter().map(|c| (*c as u8).to_string()).collect();
+            format!("SUBACK {} {} {} [{}]", p.packet_id, os(&p.reason_string), oup(&p.user_properties), codes.join(","))
+        }
+        MqttPacket::Unsubscribe(p) => {
+            let filters: Vec<String> = p.topic_filters.iter().map(|f| hex(f.as_bytes())).collect();
+            format!("UNSUBSCRIBE {} [{}] {}", p.packet_id, filters.join(","), oup(&p.user_properties))
+        }
+        MqttPacket::Unsuback(p) => {
+            let codes: Vec<String> = p.reason_codes.iter().map(|c| (*c as u8).to_string()).collect();
+            format!("UNSUBACK {} {} {} [{}]", p.packet_id, os(&p.reason_string), oup(&p.user_properties), codes.join(","))
+        }
+        MqttPacket::Pingreq(_) => { "PINGREQ".to_string() }
+        MqttPacket::Pingresp(_) => { "PINGRESP".to_string() }
+        MqttPacket::Disconnect(p) => {
+            format!("DISCONNECT {} {} {} {} {}", p.reason_code as u8, o(&p.session_expiry_interval_seconds), os(&p.reason_string), oup(&p.user_properties), os(&p.server_reference))
+        }
+        MqttPacket::Auth(p) => {
+            format!("AUTH {} {} {} {} {}", p.reason_code as u8, os(&p.authentication_method), obytes(&p.authentication_data), os(&p.reason_string), oup(&p.user_properties))
+        }
+    }
+}
+
+/// Parses one packet from whitespace-separated tokens (inverse of `packet_to_text`).
+pub(crate) fn packet_from_tokens(tokens: &[&str]) -> TextResult<MqttPacket> {
+    let mut t = Toks { toks: tokens.to_vec(), pos: 0 };
+    let kind = t.next()?;
+    let packet = match kind {
+        "CONNECT" => {
+            let mut p = ConnectPacket {
+                keep_alive_interval_seconds: num(t.next()?)?,
+                clean_start: boolean(t.next()?)?,
+                client_id: opt(t.next()?, unhex_string)?,
+                username: opt(t.next()?, unhex_string)?,
+                password: opt(t.next()?, unhex)?,
+                session_expiry_interval_seconds: opt(t.next()?, num::<u32>)?,
+                request_response_information: opt(t.next()?, boolean)?,
+                request_problem_information: opt(t.next()?, boolean)?,
+                receive_maximum: opt(t.next()?, num::<u16>)?,
+                topic_alias_maximum: opt(t.next()?, num::<u16>)?,
+                maximum_packet_size_bytes: opt(t.next()?, num::<u32>)?,
+                authentication_method: opt(t.next()?, unhex_string)?,
+                authentication_data: opt(t.next()?, unhex)?,
+                will_delay_interval_seconds: opt(t.next()?, num::<u32>)?,
+                user_properties: opt(t.next()?, user_properties)?,
+                will: None,
+            };
+            match t.next()? {
+                "NOWILL" => {}
+                "WILL" => { p.will = Some(publish_from_tokens(&mut t)?); }
+                other => { return Err(format!("bad will marker {}", other)); }
+            }
+            MqttPacket::Connect(p)
+        }
+        "CONNACK" => {
+            MqttPacket::Connack(ConnackPacket {
+                session_present: boolean(t.next()?)?,
+                reason_code: enum8(t.next()?)?,
+                session_expiry_interval: opt(t.next()?, num::<u32>)?,
+                receive_maximum: opt(t.next()?, num::<u16>)?,
+                maximum_qos: opt(t.next()?, enum8::<QualityOfService>)?,
+                retain_available: opt(t.next()?, boolean)?,
+                maximum_packet_size: opt(t.next()?, num::<u32>)?,
+                assigned_client_identifier: opt(t.next()?, unhex_string)?,
+                topic_alias_maximum: opt(t.next()?, num::<u16>)?,
+                reason_string: opt(t.next()?, unhex_string)?,
+                user_properties: opt(t.next()?, user_properties)?,
+                wildcard_subscriptions_available: opt(t.next()?, boolean)?,
+                subscription_identifiers_available: opt(t.next()?, boolean)?,
+                shared_subscriptions_available: opt(t.next()?, boolean)?,
+                server_keep_alive: opt(t.next()?, num::<u16>)?,
+                response_information: opt(t.next()?, unhex_string)?,
+                server_reference: opt(t.next()?, unhex_string)?,
+                authentication_method: opt(t.next()?, unhex_string)?,
+                authentication_data: opt(t.next()?, unhex)?,
+            })
+        }
+        "PUBLISH" => { MqttPacket::Publish(publish_from_tokens(&mut t)?) }
+        "PUBACK" => { MqttPacket::Puback(ack_from_tokens!(t, PubackPacket)) }
+        "PUBREC" => { MqttPacket::Pubrec(ack_from_tokens!(t, PubrecPacket)) }
+        "PUBREL" => { MqttPacket::Pubrel(ack_from_tokens!(t, PubrelPacket)) }
+        "PUBCOMP" => { MqttPacket::Pubcomp(ack_from_tokens!(t, PubcompPacket)) }
+        "SUBSCRIBE" => {
+            let packet_id = num(t.next()?)?;
+            let mut subscriptions = Vec::new();
+            for item in list_items(t.next()?)? {
+                let f: Vec<&str> = item.split(':').collect();
+                if f.len() != 5 { return Err("bad subscription".to_string()); }
+                subscriptions.push(Subscription {
+                    topic_filter: unhex_string(f[0])?,
+                    qos: enum8(f[1])?,
+                    no_local: boolean(f[2])?,
+                    retain_as_published: boolean(f[3])?,
+                    retain_handling_type: match f[4] { "0" => RetainHandlingType::SendOnSubscribe, "1" => RetainHandlingType::SendOnSubscribeIfNew, "2" => RetainHandlingType::DontSend, _ => { return Err("bad retain handling".to_string()); } },
+                });
+            }
+            MqttPacket::Subscribe(SubscribePacket {
+                packet_id,
+                subscriptions,
+                subscription_identifier: opt(t.next()?, num::<u32>)?,
+                user_properties: opt(t.next()?, user_properties)?,
+            })
+        }
+        "SUBACK" => {
+            let packet_id = num(t.next()?)?;
+            let reason_string = opt(t.next()?, unhex_string)?;
+            let user_properties = opt(t.next()?, user_properties)?;
+            let mut reason_codes = Vec::new();
+            for item in list_items(t.next()?)? { reason_codes.push(enum8::<SubackReasonCode>(item)?); }
+            MqttPacket::Suback(SubackPacket { packet_id, reason_string, user_properties, reason_codes })
+        }
+        "UNSUBSCRIBE" => {
+            let packet_id = num(t.next()?)?;
+            let mut topic_filters = Vec::new();
+            for item in list_items(t.next()?)? { topic_filters.push(unhex_string(item)?); }
+            MqttPacket::Unsubscribe(UnsubscribePacket { packet_id, topic_filters, user_properties: opt(t.next()?, user_properties)? })
+        }
+        "UNSUBACK" => {
+            let packet_id = num(t.next()?)?;
+            let reason_string = opt(t.next()?, unhex_string)?;
+            let user_properties = opt(t.next()?, user_properties)?;
+            let mut reason_codes = Vec::new();
+            for item in list_items(t.next()?)? { reason_codes.push(enum8::<UnsubackReasonCode>(item)?); }
+            MqttPacket::Unsuback(UnsubackPacket { packet_id, reason_string, user_properties, reason_codes })
+        }
+        "PINGREQ" => { MqttPacket::Pingreq(PingreqPacket {}) }
+        "PINGRESP" => { MqttPacket::Pingresp(PingrespPacket {}) }
+        "DISCONNECT" => {
+            MqttPacket::Disconnect(DisconnectPacket {
+                reason_code: enum8(t.next()?)?,
+                session_expiry_interval_seconds: opt(t.next()?, num::<u32>)?,
+                reason_string: opt(t.next()?, unhex_string)?,
+                user_properties: opt(t.next()?, user_properties)?,
+                server_reference: opt(t.next()?, unhex_string)?,
+            })
+        }
+        "AUTH" => {
+            MqttPacket::Auth(AuthPacket {
+                reason_code: enum8(t.next()?)?,
+                authentication_method: opt(t.next()?, unhex_string)?,
+                authentication_data: opt(t.next()?, unhex)?,
+                reason_string: opt(t.next()?, unhex_string)?,
+                user_properties: opt(t.next()?, user_properties)?,
+            })
+        }
+        other => { return Err(format!("unknown packet kind {}", other)); }
+    };
+
+    if t.pos != t.toks.len() {
+        return Err("trailing tokens".to_string());
+    }
+
+    Ok(packet)
+}
+
+/// Maps an error to the name of its GneissError constructor (messages are never compared).
+pub fn error_kind(error: &crate::error::GneissError) -> &'static str {
+    use crate::error::GneissError::*;
+    match error {
+        Unimplemented(_) => "Unimplemented",
+        OperationChannelFailure(_) => "OperationChannelFailure",
+        EncodingFailure(_) => "EncodingFailure",
+        DecodingFailure(_) => "DecodingFailure",
+        ProtocolError(_) => "ProtocolError",
+        InvalidInboundTopicAlias(_) => "InvalidInboundTopicAlias",
+        UserInitiatedDisconnect(_) => "UserInitiatedDisconnect",
+        ClientClosed(_) => "ClientClosed",
+        AckTimeout(_) => "AckTimeout",
+        PacketValidationFailure(_) => "PacketValidationFailure",
+        ConnectionEstablishmentFailure(_) => "ConnectionEstablishmentFailure",
+        StdIoError(_) => "StdIoError",
+        ConnectionClosed(_) => "ConnectionClosed",
+        OfflineQueuePolicyFailed(_) => "OfflineQueuePolicyFailed",
+        InternalStateError(_) => "InternalStateError",
+        TransportError(_) => "TransportError",
+        TlsError(_) => "TlsError",
+        MaxInterruptedRetriesExceeded(_) => "MaxInterruptedRetriesExceeded",
+        OtherError(_) => "OtherError",
+    }
+}
